@@ -16,7 +16,8 @@ CLAIMS = {
          "parsers is a conversion result unless its definition carries a documented waiver (R01b); in Rule.parse every "
          "path to the final return passes origin transform, element parser and validators loop under their guards, in "
          "order, with results assigned back; early exits are the two accepted shortcuts (R01c); stores into the binding "
-         "results of the lookup strategies and parse_params are parse results (R01d). R01a splits conditional returns into their arms and treats results of foreign parse functions (json.loads, ast.literal_eval) as unconverted input. Round 4: with subclasses admitted every converter return is built by the requested class (R01e); explicitly passed options are recorded whatever their value (R10h, shared). Round 5: defaults that do not waive the guarantee (R01f); R02f and R05i shared. Round 6: R01b for the sequence / mapping element parsers is decided on their decision tables (a raw element in the result only under preserve).",
+         "results of the lookup strategies and parse_params are parse results (R01d). R01a splits conditional returns into their arms and treats results of foreign parse functions (json.loads, ast.literal_eval) as unconverted input. Round 4: with subclasses admitted every converter return is built by the requested class (R01e); explicitly passed options are recorded whatever their value (R10h, shared). Round 5: defaults that do not waive the guarantee (R01f); R02f and R05i shared. Round 6: R01b for the sequence / mapping element parsers is decided on their decision tables (a raw element in the result only under preserve)."
+         " Round 8: @apply forwards every constraint it was given, zero-valued ones included, decided as a table over the interpreted apply() (R01g).",
     note="Undecided: that each converter's constructor yields a conforming value for every input (value-level), "
          "_parse_decimal arithmetic, user-supplied converters.",
     technique="return-provenance with dominating type-guard facts, typestate (RAW/PARSED) of container stores, "
@@ -57,7 +58,8 @@ CLAIMS = {
     text="Static: every write to the registration list is followed on all paths by a reset of the resolve memo (R16a); "
          "after each front insertion the list is unconditionally stably sorted by the priority component, descending "
          "(R16b); every registration criterion reaches the generated detector with the documented polarity (R16c); "
-         "resolve consults shortcut, memo keyed by the type, the list in order, base, default (R16d). The memo reset follows the list change on every path, and the memo is filled only inside the own scan. Round 4: conversions must not be handed a converter resolved at declaration time (R16f; four sites are known findings F47a-d); no library metaclass overrides __eq__ / __hash__ (R16g). Round 5: resolve (1280 input classes) and the detector built by register (288) decided as tables by the interpreter (R16d, R16c).",
+         "resolve consults shortcut, memo keyed by the type, the list in order, base, default (R16d). The memo reset follows the list change on every path, and the memo is filled only inside the own scan. Round 4: conversions must not be handed a converter resolved at declaration time (R16f; four sites are known findings F47a-d); no library metaclass overrides __eq__ / __hash__ (R16g). Round 5: resolve (1280 input classes) and the detector built by register (288) decided as tables by the interpreter (R16d, R16c)."
+         " Round 8: the effect of a registration decided as a table over the interpreted register(): every earlier entry kept, one new entry at its priority position, memo emptied, sequences of registrations listed completely (R16h; replaces the scan-insert and stored-tuple shapes).",
     note="Scoped to TypeRegistry; Rule.__origin_transformer__ memoisation at declaration time is documented behaviour.",
     technique="write/invalidate pairing on the CFG, idiom table for order maintenance, guard-fact polarity checks; finite-domain abstract interpretation (decision tables of resolve and of the generated detector)",
     ref="DESIGN.md 3/C16"),
@@ -68,7 +70,8 @@ CLAIMS = {
          "decimal_places <=, regex full match, const equality + type-exactness, enum membership, multiple_of remainder, "
          "unique_items, contains counts) (R02a); accept paths return the input unchanged except the documented "
          "normalisers (R02b); isinstance answers True only after isinstance(obj, origin) and a successful parse (R02c); "
-         "Field/apply accept every constraint keyword and forward it under its own name (R02d). No local is carried from one constraint to the next while the validators are compiled (R02e). Round 4: every normal path of Rule.__init_subclass__ rebuilds the validator list (R02f); no path of Rule.parse skips the validators (R01c, shared with C01).",
+         "Field/apply accept every constraint keyword and forward it under its own name (R02d). No local is carried from one constraint to the next while the validators are compiled (R02e). Round 4: every normal path of Rule.__init_subclass__ rebuilds the validator list (R02f); no path of Rule.parse skips the validators (R01c, shared with C01)."
+         " Round 8: forwarding by @apply decided as a table (R01g, replaces the dict-literal shape of R02d for apply).",
     note="Undecided: digit counting in _parse_decimal, multiple_of on floats, NaN (total-order normalisation on purpose).",
     technique="path-condition extraction per validator + operator-table comparison, dominance checks, keyword-table agreement",
     ref="DESIGN.md 3/C02"),
@@ -107,7 +110,8 @@ CLAIMS = {
          "is_required, nothing stored afterwards, defaults only when not required, is_required honours ignore_required / "
          "always_no_input (R05c); parse_addition is the ordered switch False->ExceedError, falsy->drop, no type->keep, "
          "type->convert (R05d); no_output gates before mapping stores, option precedence in get_default, lookup order "
-         "name->alias->case-insensitive (R05e). A field's own alias_from overrides the alias generator (R05f); parse-time defaults bind defer=False effectively, explicit or via the callee's declared default (R05g); a key that matched a declared field is marked consumed on every path (R06f). Inherited fields merge farthest-base-first (R05h); R05g covers every get_default call site. Round 4: alias tables rebuilt from the current fields (R06h, shared). Round 5: get_default is decided as a decision table by the checker's interpreter over its full finite domain (R05a/R05e); addition-type table (R05i); option defaults (R05j); R06e shared. Round 6: the lookup-strategy parts of R05b / R05c are read off the strategy decision table (C06); R18l (inherited class options) shared from C18.",
+         "name->alias->case-insensitive (R05e). A field's own alias_from overrides the alias generator (R05f); parse-time defaults bind defer=False effectively, explicit or via the callee's declared default (R05g); a key that matched a declared field is marked consumed on every path (R06f). Inherited fields merge farthest-base-first (R05h); R05g covers every get_default call site. Round 4: alias tables rebuilt from the current fields (R06h, shared). Round 5: get_default is decided as a decision table by the checker's interpreter over its full finite domain (R05a/R05e); addition-type table (R05i); option defaults (R05j); R06e shared. Round 6: the lookup-strategy parts of R05b / R05c are read off the strategy decision table (C06); R18l (inherited class options) shared from C18."
+         " Round 8: copy_value decided as a table over default shapes (no mutable container shared at any depth, user subclasses included) instead of by shape.",
     note="Undecided (the core): alias/case tables as values, mode strings, option interactions - needs a reference model "
          "over declarations x inputs.",
     technique="must-pass-through / dominating guard facts per enforcement point, dead-branch (ordering) check on the switch; finite-domain abstract interpretation of get_default and parse_addition_type ; strategy decision table (finite-domain interpretation)",
@@ -127,7 +131,8 @@ CLAIMS = {
          "result channel exactly under parse_result, wrap() dispatches each function kind with all settings (R08a); the "
          "wrapped function only receives get_params' result and parse_params flushes before returning (R08b=R04e); with "
          "declared yield/send/return types the raw item / sent value / return value cannot reach the yield / send / "
-         "return (R08c); the value returned by send()/asend() is used (R08d). parse_data dominates every return of parse_params and is unconditional (R08e). The **kwargs annotation is merged after the user's options (R08f); R10e and R06i also run on the function parser.",
+         "return (R08c); the value returned by send()/asend() is used (R08d). parse_data dominates every return of parse_params and is unconditional (R08e). The **kwargs annotation is merged after the user's options (R08f); R10e and R06i also run on the function parser."
+         " Round 8: a dependency supplied by position counts as provided - the excluded-dependency rows of the strategy table (R06a shared).",
     note="Undecided (the core): positional index mapping, alias equivalence, *args offsets, defaults - needs generated "
          "signatures against inspect.Signature.bind.",
     technique="sibling agreement of wrapper call sequences, dominance, reaching definitions avoiding waiver branches, "
@@ -139,7 +144,8 @@ CLAIMS = {
          "return types are re-resolved, nested types recursively (R17b); the late re-parse applies the constraints, key, "
          "pending table and globals stored with the pending reference (R17c); apply/__call__ dereference an evaluated "
          "ForwardRef before dispatch and raise for an unevaluated one (R17d); local-scope resets happen after "
-         "re-resolution and classes can resolve their own name (R17e). Each pending entry stores the reference object of its own annotation (R17f). The re-resolution hook is guarded by `resolved` only, ClassParser.globals always injects the class, evaluate_forward_ref passes the namespaces through unchanged (R17g). Round 4: base parsers are resolved before a subclass (R17i); loop flags accumulate (R17j); re-resolution descends into a combined origin (R17k); R16d shared. Round 6: the resolved-indicator of the resolution worker is found by role (a flag or a collection of resolved references).",
+         "re-resolution and classes can resolve their own name (R17e). Each pending entry stores the reference object of its own annotation (R17f). The re-resolution hook is guarded by `resolved` only, ClassParser.globals always injects the class, evaluate_forward_ref passes the namespaces through unchanged (R17g). Round 4: base parsers are resolved before a subclass (R17i); loop flags accumulate (R17j); re-resolution descends into a combined origin (R17k); R16d shared. Round 6: the resolved-indicator of the resolution worker is found by role (a flag or a collection of resolved references)."
+         " Round 8: is_local_var answers by `<locals>` anywhere in the qualified name (R17l table).",
     note="Undecided (the core): behavioural equivalence with the directly written declaration for every order of "
          "definition and first use.",
     technique="dominance / must-pass-through at entries, argument-flow checks on the late re-parse, statement order on the CFG",
@@ -152,7 +158,8 @@ CLAIMS = {
          "tuple-surplus gate reads the flag (R12b); each enumerated lossy operation (collection collapse, lenient "
          "decode, datetime/timed text to date with a full midnight comparison, datetime to time, truthiness fallback, "
          "fractional int, list to data class incl. element fast paths) is separated from no_data_loss by a raising test "
-         "or a strict variant (R12c); the union's retry stages only raise flags (R12d). Round 5: option defaults (R12e); guards compared as clauses (De Morgan / comparison complements). Round 6: R12d reads the union's stages off the stage table of logical_parse and checks that the first accepting attempt in stage order wins; the tuple surplus gate is decided on the facts of the reject.",
+         "or a strict variant (R12c); the union's retry stages only raise flags (R12d). Round 5: option defaults (R12e); guards compared as clauses (De Morgan / comparison complements). Round 6: R12d reads the union's stages off the stage table of logical_parse and checks that the first accepting attempt in stage order wins; the tuple surplus gate is decided on the facts of the reject."
+         " Round 8: multi() decided as a table over input classes - containers and their user subclasses yes; text, bytes-like, mappings, scalars no (R12f).",
     note="Undecided (the core): that whatever converts under the flags converts to an equal value without them, and "
          "value preservation, as relations over all (source, target) pairs. Observed, not derivable: for Union[int, str] "
          "and 3.5 no_explicit_cast gives 3 while the lenient result is '3.5'.",
@@ -200,7 +207,8 @@ CLAIMS = {
          "input-carrying parameter of the parse core, converters or validators (aliases, elements and attributes "
          "followed; copies break the chain) (R19b); every write to state that outlives the call, enumerated from the "
          "runtime entries over the receiver-aware call graph whether locked or not, is one of the listed semantically "
-         "transparent memos (R19c); the per-call context is never stored on a shared object (R19d). Objects the mutating helpers own by table are created for the call at every call site (R19e). Round 4: R16d shared (the registry memo holds positive answers only). Round 5: R19a uses the get_default table.",
+         "transparent memos (R19c); the per-call context is never stored on a shared object (R19d). Objects the mutating helpers own by table are created for the call at every call site (R19e). Round 4: R16d shared (the registry memo holds positive answers only). Round 5: R19a uses the get_default table."
+         " Round 8: copy_value (R19f) and multi() (R12f) decided as tables; operator methods (`a & b` -> __and__ ...) are call-graph edges, so a memo inside Options.__and__ is an enumerated write.",
     note="Undecided: aliasing of unconverted containers between input and output (not a mutation during parsing); "
          "equality of outcomes across call histories (needs replay against fresh-process results).",
     technique="provenance of mutator receivers from input parameters, shared-write inventory over the call graph "
@@ -215,7 +223,8 @@ CLAIMS = {
          "table read without the lock is only emptied by the lock holder, after every other step of the region (R20b); "
          "the converter registry changes its list and resets its memo in one critical section, fills the memo under the "
          "same lock after a scan under that lock, and reads it lock-free in one atomic operation (R20c); the parser "
-         "memo publishes a completely constructed parser with one store (R20d). No lock-free look at the registration list; writes through local aliases of shared containers and property getters are part of the inventory.",
+         "memo publishes a completely constructed parser with one store (R20d). No lock-free look at the registration list; writes through local aliases of shared containers and property getters are part of the inventory."
+         " Round 8: operator methods of run-time objects are call-graph edges (writes inside them are inventoried).",
     note="Decides the absence of unsynchronised compound mutation of the anchored state, not the absence of failures "
          "under all schedules (no interleaving is explored). Assumes construction of a class / parser object is "
          "thread-confined until it is published; concurrent mutation of one user instance is out of scope.",
@@ -231,7 +240,8 @@ CLAIMS = {
          "(R15c, R15f); the translator recurses only on strict components of its schema argument, never through $ref "
          "resolution, and no call cycle passes the schema on unchanged (R15d); every condition that triggers the name "
          "sanitiser (base-class attributes, names already used, the loop's own un-sanitised keys) is handed to it, "
-         "fields and annotations share the sanitised key and the schema key is kept as alias (R15e). Memo keys of translations mention every argument (R15g); the sanitised name cannot start with an underscore and private-prefix names are sanitised (R15h); presence of const / default is decided by a sentinel, not truthiness (R15i). Round 4: combinator rules R09a-c, R10c, R10g and the context-options rule R18i are shared (anyOf / oneOf / not and nested objects). Round 5: get_constraints table; R10e shared.",
+         "fields and annotations share the sanitised key and the schema key is kept as alias (R15e). Memo keys of translations mention every argument (R15g); the sanitised name cannot start with an underscore and private-prefix names are sanitised (R15h); presence of const / default is decided by a sentinel, not truthiness (R15i). Round 4: combinator rules R09a-c, R10c, R10g and the context-options rule R18i are shared (anyOf / oneOf / not and nested objects). Round 5: get_constraints table; R10e shared."
+         " Round 8: valid_attr accepts exactly the non-keyword identifiers, non-ASCII included (R15k table).",
     note="Undecided: that every value the built type returns validates against the source schema (needs an independent "
          "validator on generated schemas and instances); keyword combinations Rule.annotate rejects (e.g. maximum "
          "together with exclusiveMaximum, a zero max length) - observed, not derivable by these rules.",
